@@ -71,6 +71,17 @@ def run(chk, binary):
         else:
             e = "substr(ltrim(%s), %d%s)" % (col, a, "" if bb is None else ", %d" % bb)
         texts.append({"lang": "spl", "text": "* | eval r=%s" % e})
+    # PromQL request grammar: range function x selector form (incl. subquery step classes) x request range shape x outer aggregation
+    beh, r = vlib.tlc_generate("GrammarProm", "Gen_GrammarProm.cfg", timeout=600)
+    chk.add_tlc("GrammarProm", r, "range function x selector form x request range class x outer aggregation")
+    RANGES = {"instant": (1700000300, 1700000300), "second": (1700000300, 1700000301), "hour": (1699999000, 1700002600),
+              "day": (1699950000, 1700036400)}
+    for b in beh:
+        inner = "cpu%s" % b["sel"]
+        call = "quantile_over_time(0.5, %s)" % inner if b["fn"] == "quantile_over_time" else "%s(%s)" % (b["fn"], inner)
+        text = call if not b["outer"] else "%s (%s)" % (b["outer"], call)
+        st, en = RANGES[b["range"]]
+        texts.append({"lang": "promql", "text": text, "start": st, "end": en, "req": True})
     if not quick:
         beh, r = vlib.tlc_generate("Grammar", "Gen_Grammar_spl_sim.cfg", simulate="num=2000", depth=6, seed=chk.seed, timeout=600)
         chk.add_tlc("Grammar[spl_sim]", r, "sampled longer SPL sequences")
@@ -122,16 +133,19 @@ def run(chk, binary):
         dr.ok("bulk", body="".join('{"index":{"_index":"a"}}\n{"id":%d,"x":%d,"y":"%s","z":"%s","w":1,"timestamp":%d}\n' % (
             i, i % 5, ["a b", "a", "a b c", ""][i % 4], ["abc", "", "a", "abcdefgh"][i % 4], 1700000000000 + i * 1000) for i in range(40)))
         dr.ok("flush")
-        dr.ok("otsdb", body=json.dumps([{"metric": "cpu", "tags": {"a": "b"}, "timestamp": 1700000000 + i * 60, "value": i} for i in range(10)]))
+        def put_metrics(drv):
+            # the open metrics block lives in memory: a fresh process needs the datapoints again to be "the same stored data"
+            drv.ok("otsdb", body=json.dumps([{"metric": "cpu", "tags": {"a": "b"}, "timestamp": 1700000000 + i * 60, "value": i} for i in range(10)]))
+        put_metrics(dr)
         # the eval-grammar texts are all executed (their point is the execution); the rest is sampled in the quick tier
-        ev = [v for v in valid if " | eval r=" in v["text"]]
-        rest = [v for v in valid if " | eval r=" not in v["text"]]
+        ev = [v for v in valid if " | eval r=" in v["text"] or v.get("req")]
+        rest = [v for v in valid if not (" | eval r=" in v["text"] or v.get("req"))]
         todo = valid if not quick else vlib.sample(rest, 400, chk.seed) + ev
         nexec = 0
         for q in todo:
             try:
                 if q["lang"] == "promql":
-                    r = dr.cmd("mquery", promql=q["text"], start=1699999000, end=1700003600, step=60, timeout=40)
+                    r = dr.cmd("mquery", promql=q["text"], start=q.get("start", 1699999000), end=q.get("end", 1700003600), step=60, timeout=40)
                 else:
                     r = dr.cmd("query", text=q["text"], index="a", lang=LANGNAME[q["lang"]], start=1, end=1800000000000, timeout_ms=20000,
                                timeout=40)
@@ -139,6 +153,7 @@ def run(chk, binary):
                 died = e
                 dr = vlib.Driver(binary)
                 dr.ok("init", dir=d, wait_ms=300)
+                put_metrics(dr)
                 if died.kind == "hang":
                     # a verdict needs a reproduction: the same text on the fresh process (a one-off stall of a process that
                     # has answered tens of thousands of queries under machine load is not a property of the query)
@@ -146,7 +161,7 @@ def run(chk, binary):
                     for _ in range(2):
                         try:
                             if q["lang"] == "promql":
-                                r2 = dr.cmd("mquery", promql=q["text"], start=1699999000, end=1700003600, step=60, timeout=40)
+                                r2 = dr.cmd("mquery", promql=q["text"], start=q.get("start", 1699999000), end=q.get("end", 1700003600), step=60, timeout=40)
                             else:
                                 r2 = dr.cmd("query", text=q["text"], index="a", lang=LANGNAME[q["lang"]], start=1, end=1800000000000,
                                             timeout_ms=20000, timeout=40)
@@ -156,8 +171,11 @@ def run(chk, binary):
                             again += 1
                             dr = vlib.Driver(binary)
                             dr.ok("init", dir=d, wait_ms=300)
+                            put_metrics(dr)
                     if again:
-                        chk.violation("C17:exec:hang:" + q["lang"], "no answer within 40 s for %r (reproduced %d of 2 times on a fresh process)" % (q["text"], again), q)
+                        chk.violation("C17:exec:hang:" + q["lang"] + (":" + q["text"].split("[")[1].split("]")[0] if q.get("req") and "[" in q["text"] else ""),
+                                      "no answer within 40 s for %r%s (reproduced %d of 2 times on a fresh process)" % (
+                                          q["text"], " over [%s,%s]" % (q["start"], q["end"]) if q.get("req") else "", again), q)
                     else:
                         chk.cov["grammar"].setdefault("stalls_not_reproduced", []).append(q["text"])
                 else:
